@@ -497,7 +497,7 @@ func init() {
 		rulePredictOpenOnly(r)
 		ruleGoHandshake(r)
 		// what Close leaves behind must be what Open reads back
-		r.support(grpFormat, grpOrder, []string{"config-wiring", "bucket-after-write", "firstfile-guard", "header-before-remove", "scan-from-firstfile", "pool-flush-complete", "scan-complete-before-truncate"})
+		r.support(grpFormat, grpOrder, grpGC, []string{"config-wiring", "bucket-after-write", "firstfile-guard", "header-before-remove", "scan-from-firstfile", "pool-flush-complete", "scan-complete-before-truncate"})
 	},
 		"Decides structural necessary conditions of 'clean Close + reopen preserves contents', not the behaviour: Store.Close reaches the Close of index, primary, file cache and freelist on every path behind the open guard, each component flushes before closing its file; the bucket snapshot is written (temp + rename) only after a successful flush and close, is only trusted when its size matches, and is removed once opened; writer, rescan and GC agree on the bucket position convention; every sequential scanner honours the deleted bit; recovery starts from the header's FirstFile; the primary resumes predicting at the end of the last file. Not covered: that rescan order reproduces the live table for every history, file contents.",
 		"dominance on the SSA CFG without pruning infeasible paths")
